@@ -104,9 +104,14 @@ def report_bad(ctx, j, code):
                 outs[0].splitlines(True), outs[1].splitlines(True), "output A", "output B"))[:200])
         feats = {"generator": j["def"]["gen"], "kind": "bytes-differ", "axis": classify(j["obs"])}
     else:
-        rep["verdict"] = "outputs identical, but the gsort block order differs from the model's (TypeName, sortTypeName) order"
+        rep["verdict"] = ("all generations byte-identical (the property's observable holds), but an order in the output is not the "
+                          "one the model's comparators give: gsort blocks by (TypeName, sortTypeName); genum value lists by Value.Less, "
+                          "trait methods by name; gerror fields by name — the model of the sorts no longer corresponds to the code")
+        rep["unchecked"] = "correspondence GenDetModel (desc_lt / value_lt / trait_lt / efield_lt) vs generated output order"
         rep["blocks_observed"] = j.get("blocks")
-        feats = {"generator": j["def"]["gen"], "kind": "block-order-vs-model"}
+        rep["value_orders_observed"] = j.get("value_orders")
+        rep["name_orders_observed"] = j.get("name_orders")
+        feats = {"generator": j["def"]["gen"], "kind": "output-order-vs-model"}
     ctx.report(rep, feats, failing_input=(code == 1))
 
 
